@@ -19,6 +19,7 @@ EXPLANATION = (
     "C08.E5: every digest operand is the as_str()-Some of a JSON value (else Err) and an array placeholder reaches the lookup only with exactly one member."
     " C08.E3 also (completeness): no copy of a plain member into the object under construction is reachable after the place where the `_sd` digests are applied, so the DuplicateKey check sees every plain member."
     " C08.E6: every array and object of the payload and of every disclosed value goes through the full walker (the clause C03.V6 / C01.a judged under C08: a container handed back unwalked escapes the duplicate-digest bookkeeping and every placeholder / arity check beneath it); a fast path reachable only when the container holds no array and no object is the identity and is accepted."
+    " C08.E7 (error discipline): every Result a crate-local call produces inside the claim-unpacking functions is handed on or branched on with the failure edge leading only to Err exits; a Result-returning closure is not handed to an adaptor that iterates over / discards it (flat_map, flatten, filter_map, ..)."
 )
 ASSUMPTIONS = [
     "value-level agreement with the specification's algorithm on well-formed inputs is not decided; each listed MUST-reject is shown to be a guard on every accepting path",
